@@ -67,6 +67,14 @@ def spanOp (s : Span) (ws : List String) : Except String (Span × String) :=
     | some (some (.res p)), some (some (.res q)) =>
       (match s.resolve ⟨p, q⟩ with | .ok s' => pure (s', "") | .error e => throw (showErr e))
     | _, _ => throw "bad-op"
+  | ["sl", a, b, c] =>   -- span[a:b:c], `-` for an omitted part
+    let part : String → Option (Option Int) := fun w => if w = "-" then some none else w.toInt?.map some
+    (match part a, part b, part c with
+      | some a, some b, some c => pure (s, "sl=" ++ (match s.getSlice a b c with
+          | .ok none => "none"
+          | .ok (some l) => "[" ++ ",".intercalate (l.map showPeriod) ++ "]"
+          | .error e => showErr e))
+      | _, _, _ => throw "bad-op")
   | ["get", i] => match i.toInt? with
     | some i => pure (s, "get=" ++ (match s.getItem i with
         | .ok none => "none" | .ok (some p) => showPeriod p | .error e => showErr e))
